@@ -497,6 +497,15 @@ Theorem C12_interpolation_binary64_overshoot :
     PrimFloat.ltb vj (interp64 vi vj fr) = true.
 Proof. exact interp_f64_overshoot. Qed.
 
+(* ... and the overshoot is reachable through vquantile: 50 valid elements {-1, 2^-53 + 2^-105, 1 x 48}, q = fl(1/49)
+   (fl(49 q) = 0.9999999999999999: floor 0, ceil 1, fraction = 1): the linear quantile 2^-52 exceeds the `higher` quantile *)
+Theorem C12_quantile_binary64_linear_above_higher :
+  nleb (A := float) nzero overshoot_q && nleb overshoot_q none = true /\
+  vquantile (NF := NumFloorF64) (DT := IsNoneF64) overshoot_q Linear overshoot_series = Ok (Some 0x1p-52%float) /\
+  vquantile (NF := NumFloorF64) (DT := IsNoneF64) overshoot_q Higher overshoot_series = Ok (Some 0x1.0000000000001p-53%float) /\
+  PrimFloat.ltb 0x1.0000000000001p-53%float 0x1p-52%float = true.
+Proof. exact vquantile_f64_overshoot. Qed.
+
 (* the partition clauses at the dictionaries the correspondence run executes: f64 with NaN as null (T::none() = NaN) *)
 Theorem C12_partition_binary64 :
   forall (kth : nat) (sort rev : bool) (xs : list float),
@@ -554,5 +563,6 @@ Print Assumptions C12_interpolation_binary64_between.
 Print Assumptions C12_interpolation_binary64_exact_difference.
 Print Assumptions C12_binary64_difference_exact_sterbenz.
 Print Assumptions C12_interpolation_binary64_overshoot.
+Print Assumptions C12_quantile_binary64_linear_above_higher.
 Print Assumptions C12_partition_binary64.
 Print Assumptions C12_partition_integer_types.
